@@ -42,6 +42,10 @@ CONFIGS = {
     'tsan': ('clang++', TSAN, True, ['-fsanitize=thread']),
     'p64-tsan': ('clang++', TSAN + P64, False, ['-fsanitize=thread']),
     'p32-tsan': ('clang++', TSAN + P32, False, ['-fsanitize=thread']),
+    # MemorySanitizer over the portable code (the assembly routines are not instrumented, so builds with them would report their
+    # outputs as uninitialised); the library and the drivers use no C++ runtime library, so everything the process runs is instrumented
+    'p64-msan': ('clang++', ['-O1', '-g', '-fno-omit-frame-pointer', '-fsanitize=memory', '-fsanitize-memory-track-origins=1'] + P64, False, ['-fsanitize=memory']),
+    'p32-msan': ('clang++', ['-O1', '-g', '-fno-omit-frame-pointer', '-fsanitize=memory', '-fsanitize-memory-track-origins=1'] + P32, False, ['-fsanitize=memory']),
     'gcc-san': ('g++', ['-O1', '-g', '-fno-omit-frame-pointer', '-fsanitize=address,undefined',
                         '-fno-sanitize-recover=all'], True, ['-fsanitize=address,undefined']),
     'fuzz': ('clang++', ['-O1', '-g', '-fno-omit-frame-pointer', '-fsanitize=fuzzer-no-link,address,undefined',
